@@ -816,7 +816,7 @@ impl Wire {
             if d.read_pause > 0 {
                 unit = unit.min(d.rbufs.iter().copied().min().unwrap_or(1).max(1));
             }
-            let writes = d.total.div_ceil(d.wchunks.iter().copied().min().unwrap_or(1).max(1)) as u64 + 1;
+            let writes = d.total.div_ceil(d.wchunks.iter().copied().min().unwrap_or(1).min(scn.cfg.send_cap).max(1)) as u64 + 1;
             total += (d.total.div_ceil(unit) as u64 + 1) * (1 + d.read_pause as u64)
                 + d.write_delay as u64
                 + writes * d.write_pause as u64;
